@@ -1400,26 +1400,15 @@ impl Relation {
                 } else {
                     0
                 };
-                let new_children = vec![
-                    GreenToken::new(WHITESPACE.into(), " ").into(),
-                    builder.finish().into(),
-                ];
-                let new_root = SyntaxNode::new_root_mut(
-                    self.0.green().splice_children(idx..idx, new_children),
+                // Edit the relation in place, so that other handles to it
+                // stay attached to the field
+                self.0.splice_children(
+                    idx..idx,
+                    vec![
+                        make_token(WHITESPACE, " "),
+                        SyntaxNode::new_root_mut(builder.finish()).into(),
+                    ],
                 );
-                if let Some(parent) = self.0.parent() {
-                    parent
-                        .splice_children(self.0.index()..self.0.index() + 1, vec![new_root.into()]);
-                    self.0 = parent
-                        .children_with_tokens()
-                        .nth(self.0.index())
-                        .unwrap()
-                        .clone()
-                        .into_node()
-                        .unwrap();
-                } else {
-                    self.0 = new_root;
-                }
             }
         } else if let Some(current_version) = current_version {
             // Remove any whitespace before the version token
@@ -1611,25 +1600,15 @@ impl Relation {
             } else {
                 self.0.children_with_tokens().count()
             };
-            let new_root = SyntaxNode::new_root_mut(self.0.green().splice_children(
+            // Edit the relation in place, so that other handles to it stay
+            // attached to the field
+            self.0.splice_children(
                 idx..idx,
                 vec![
-                    GreenToken::new(WHITESPACE.into(), " ").into(),
-                    builder.finish().into(),
+                    make_token(WHITESPACE, " "),
+                    SyntaxNode::new_root_mut(builder.finish()).into(),
                 ],
-            ));
-            if let Some(parent) = self.0.parent() {
-                parent.splice_children(self.0.index()..self.0.index() + 1, vec![new_root.into()]);
-                self.0 = parent
-                    .children_with_tokens()
-                    .nth(self.0.index())
-                    .unwrap()
-                    .clone()
-                    .into_node()
-                    .unwrap();
-            } else {
-                self.0 = new_root;
-            }
+            );
         }
     }
 
@@ -1665,28 +1644,15 @@ impl Relation {
         builder.finish_node();
 
         // Add after the existing restriction lists (they are the last part of a relation)
-        {
-            let idx = self.0.children_with_tokens().count();
-            let new_root = SyntaxNode::new_root_mut(self.0.green().splice_children(
-                idx..idx,
-                vec![
-                    GreenToken::new(WHITESPACE.into(), " ").into(),
-                    builder.finish().into(),
-                ],
-            ));
-            if let Some(parent) = self.0.parent() {
-                parent.splice_children(self.0.index()..self.0.index() + 1, vec![new_root.into()]);
-                self.0 = parent
-                    .children_with_tokens()
-                    .nth(self.0.index())
-                    .unwrap()
-                    .clone()
-                    .into_node()
-                    .unwrap();
-            } else {
-                self.0 = new_root;
-            }
-        }
+        // (in place, so that other handles to this relation stay attached)
+        let idx = self.0.children_with_tokens().count();
+        self.0.splice_children(
+            idx..idx,
+            vec![
+                make_token(WHITESPACE, " "),
+                SyntaxNode::new_root_mut(builder.finish()).into(),
+            ],
+        );
     }
 
     /// Build a new relation
